@@ -123,7 +123,10 @@ CLAIMS = {
              "no names assumed) and explored in lock-step with a reference splitter from the initial state: every "
              "reachable pair of states must produce the same output events for every class - a bisimulation that is "
              "valid for all strings and from which split(join(escape(ws))) == ws follows for backslash escaping; a "
-             "difference is reported with the shortest character-class sequence leading to it; argv capacity by Engine C. Other quoting disciplines and "
+             "difference is reported with the shortest character-class sequence leading to it; argv capacity by Engine C; "
+             "a who-may-write rule shows that the pairing state of the handler (the argument whose value list is open) "
+             "is written by no function that runs once per chunk of words, so a value list continues across file "
+             "lines / environment / argv exactly as across argv words. Other quoting disciplines and "
              "value equality between sources are not decided.",
         note="trusts clang AST/CFG; std::string append/clear semantics; round trip claimed for backslash escaping only",
         also=("engine A (cfg.py)", "engine C (lin.py, bounds.py)"),
@@ -149,7 +152,9 @@ CLAIMS = {
         text="Whole-library effect analysis: every function reachable from the argument-handler API (resolved call "
              "graph incl. virtual overriders and lambdas, all destination kinds instantiated by a driver) is shown to "
              "touch no written, mutable object with static storage duration unless a lock on a static mutex is held; "
-             "no non-reentrant libc call; per-handler constraint container. Holds for every schedule because it is a "
+             "no non-reentrant libc call; per-handler constraint container; no function-local static on those paths is "
+             "initialised from a parameter, a local or the object (a process-wide memo of the first caller's data "
+             "is not a race but breaks 'as if alone'). Holds for every schedule because it is a "
              "statement about all paths of all reachable functions; it does not execute interleavings.",
         note="trusts clang AST/CFG, the extractor, thread-safety of boost/libstdc++ internals; std::function targets "
              "supplied by users are outside the claim",
@@ -177,8 +182,7 @@ CLAIMS = {
              "be resolved and compared with the reference bit vector for every operand, size and shift distance. "
              "Iteration order: forward()/reverse() of the iterator base are proved to move to the NEXT set position "
              "(each step tests exactly the neighbouring position, continues only over a clear bit inside the set, stops "
-             "only at a set bit or the end marker) and operator++/-- of both iterator kinds step through them. set() "
-             "(range-for over proxies), operator[] (growing access) and == are not decided.",
+             "only at a set bit or the end marker) and operator++/-- of both iterator kinds step through them.",
         note="trusted base: clang front end, extractor, cv/lin.py + cv/bounds.py, the size model of std::vector<bool>, "
              "std::find/std::count semantics; shift distances < 2^62 assumed",
         technique="static analysis: relational (linear inequality) abstract interpretation, inductive loop/iterator invariants"),
@@ -262,8 +266,9 @@ CLAIMS = {
              "mLength <= L (incl. narrowing into the length type) with a NUL known at mString[ mLength] is assumed at "
              "entry and proved at every exit (also for a string passed by non-const reference), which makes it hold "
              "after every sequence of operations. The four iterator classes are decided the same way with the "
-             "invariant 'index is the end marker or < length()' from each of its cases. Not decided: "
-             "'length equals strlen' beyond the terminator at the length, the one overload taking std::string iterators, "
+             "invariant 'index is the end marker or < length()' from each of its cases. The strlen clause (no left-over "
+             "byte below the length) is decided by the provenance rule shared with C11-R4 for the arguments of the "
+             "documented domain (O5). Not decided: the one overload taking std::string iterators, "
              "operator[] outside its documented precondition. Overloads taking iterators of the string are analysed for "
              "every combination of end-marker / inside positions of valid iterators.",
         note="trusted base: clang front end, extractor, cv/lin.py + cv/bounds.py, models of mem*/vsnprintf/std::string; "
